@@ -382,6 +382,13 @@ func execText(x *fw.Ctx, c Case) {
 			x.Fail(fmt.Sprintf("text fail=changed fmt=%s at=%s", wo.label(), d.kinds()), "bag -> %s -> %s gives a different bag %s\nwritten: %s", src, entry, d, string(out))
 			return
 		}
+		// slip's own comparison of the two bags must agree with the verdict
+		w.let("b2", b2)
+		if cmp, err := w.eval(`(bag-compare b b2)`); err != nil || cmp != nil {
+			x.Fail("text fail=bag-compare-disagrees fmt="+wo.label(), "the re-read bag equals the original (harness comparison) but (bag-compare b b2) => %s %v\nwritten: %s", short(sl.Show(cmp)), err, string(out))
+			return
+		}
+		x.Cover("text:bag-compare-agrees")
 		if diff(t1, t2) != nil {
 			// same numbers, but a float came back as an integer (or the
 			// reverse): JSON text has one number type, so this is not a
@@ -815,6 +822,9 @@ func (w *world) observeQuery(model *Node, op *Op, phase string) bool {
 		}
 		x.Cover("path:get-found")
 	case "getall", "walk":
+		if w.evals%3 == 0 || op.NoPath {
+			return w.observeQueryLisp(model, op, ms, parg, fail)
+		}
 		var src string
 		if op.Op == "getall" {
 			src = "(bag-get-all b " + parg + " :bag)"
@@ -851,6 +861,152 @@ func (w *world) observeQuery(model *Node, op *Op, phase string) bool {
 		x.CoverN("path:"+op.Op+"-values", len(got))
 	}
 	return true
+}
+
+// observeQueryLisp is the walk / get-all comparison on the variants that
+// deliver Lisp values instead of bags: (bag-get-all bag path :native), the
+// default :bag-list, and bag-walk without as-bag. Lisp values cannot tell
+// null, false and empty containers apart, so both sides are compared in a
+// rendering that does not either.
+func (w *world) observeQueryLisp(model *Node, op *Op, ms []match, parg string, fail func(string, string, ...any) bool) bool {
+	var src, variant string
+	switch {
+	case op.NoPath:
+		// the documented default path of walk is ".."
+		variant = "walk-default-path"
+		src = "(let ((acc '())) (bag-walk b (lambda (x) (setq acc (cons x acc)))) acc)"
+		if op.Send {
+			src = "(let ((acc '())) (send b :walk (lambda (x) (setq acc (cons x acc)))) acc)"
+		}
+	case op.Op == "walk" && op.Send:
+		variant = "walk-lisp"
+		src = "(let ((acc '())) (send b :walk (lambda (x) (setq acc (cons x acc))) " + parg + ") acc)"
+	case op.Op == "walk":
+		variant = "walk-lisp"
+		src = "(let ((acc '())) (bag-walk b (lambda (x) (setq acc (cons x acc))) " + parg + ") acc)"
+	case w.evals%2 == 0:
+		variant = "getall-native"
+		src = "(bag-get-all b " + parg + " :native)"
+	default:
+		variant = "getall-bag-list"
+		src = "(bag-get-all b " + parg + ")"
+	}
+	res, err := w.eval(src)
+	if err != nil {
+		return w.queryError(op, err, src)
+	}
+	l, _ := res.(slip.List)
+	if res != nil && l == nil {
+		return fail("result-type", "%s => %s", src, short(sl.Show(res)))
+	}
+	want := make([]string, len(ms))
+	for i, m := range ms {
+		want[i] = nodeLispCanon(m.node)
+	}
+	got := make([]string, len(l))
+	for i, e := range l {
+		if inst, isBag := bagOf(e); isBag {
+			got[i] = nodeLispCanon(fromAny(inst.Any))
+		} else {
+			got[i] = lispCanon(e)
+		}
+	}
+	sort.Strings(want)
+	sort.Strings(got)
+	if strings.Join(want, "\x00") != strings.Join(got, "\x00") {
+		return fail("disagrees-with-get", "%s visited %d values %s, the path matches %d: %s", src, len(got), short(strings.Join(got, " ")), len(want), short(strings.Join(want, " ")))
+	}
+	w.x.CoverN("path:"+variant+"-values", len(got))
+	return true
+}
+
+// nodeLispCanon renders a node the way its native Lisp form can be told
+// apart: null, false and the empty containers are all nil.
+func nodeLispCanon(n *Node) string {
+	switch n.K {
+	case kNull:
+		return "nil"
+	case kBool:
+		if n.B {
+			return "t"
+		}
+		return "nil"
+	case kArr:
+		if len(n.A) == 0 {
+			return "nil"
+		}
+		parts := make([]string, len(n.A))
+		for i, e := range n.A {
+			parts[i] = nodeLispCanon(e)
+		}
+		return "[" + strings.Join(parts, ",") + "]"
+	case kObj:
+		if len(n.A) == 0 {
+			return "nil"
+		}
+		parts := make([]string, len(n.A))
+		for i, k := range n.Keys {
+			parts[i] = strconv.QuoteToASCII(k) + ":" + nodeLispCanon(n.A[i])
+		}
+		sort.Strings(parts)
+		return "{" + strings.Join(parts, ",") + "}"
+	}
+	return n.canon()
+}
+
+// lispCanon renders a Lisp value in the same notation.
+func lispCanon(obj slip.Object) string {
+	switch to := obj.(type) {
+	case nil:
+		return "nil"
+	case slip.Fixnum:
+		return strconv.FormatInt(int64(to), 10)
+	case slip.DoubleFloat:
+		f := float64(to)
+		if f == 0 {
+			f = 0
+		}
+		return "f:" + strconv.FormatFloat(f, 'g', -1, 64)
+	case slip.String:
+		return strconv.QuoteToASCII(string(to))
+	case slip.Time:
+		return "@" + strconv.FormatInt(time.Time(to).UnixNano(), 10)
+	case slip.Symbol:
+		return "sym:" + string(to)
+	case slip.List:
+		if len(to) == 0 {
+			return "nil"
+		}
+		assoc := true
+		for _, e := range to {
+			pair, ok := e.(slip.List)
+			if !ok || len(pair) != 2 {
+				assoc = false
+				break
+			}
+			if _, ok = pair[1].(slip.Tail); !ok {
+				assoc = false
+				break
+			}
+		}
+		parts := make([]string, len(to))
+		if assoc {
+			for i, e := range to {
+				pair := e.(slip.List)
+				parts[i] = lispCanon(pair[0]) + ":" + lispCanon(pair[1].(slip.Tail).Value)
+			}
+			sort.Strings(parts)
+			return "{" + strings.Join(parts, ",") + "}"
+		}
+		for i, e := range to {
+			parts[i] = lispCanon(e)
+		}
+		return "[" + strings.Join(parts, ",") + "]"
+	}
+	if obj == slip.True {
+		return "t"
+	}
+	return "<" + sl.Kind(obj) + ">"
 }
 
 func (w *world) queryError(op *Op, err *sl.Err, src string) bool {
@@ -920,6 +1076,9 @@ func (w *world) observeAll(model *Node, b *flavors.Instance, phase string) bool 
 			continue // ".." by itself on a scalar document: the notation does not say whether the root is a match
 		}
 		op := Op{Op: []string{"walk", "getall"}[i%2], Path: p, PStr: p.render(0)}
+		if len(p) == 1 && p[0].K == "descent" && n%2 == 0 {
+			op.Op, op.NoPath = "walk", true
+		}
 		if !w.observeQuery(model, &op, phase) {
 			return false
 		}
@@ -970,7 +1129,6 @@ func execPath(x *fw.Ctx, c Case) {
 		phase := fmt.Sprintf("after step %d: %s %q", i+1, op.Op, op.PStr)
 		x.Cover("path:op=" + op.Op)
 		x.Cover("path:class=" + pathClass(op.Path))
-		x.Cover("path:shape=" + op.Path.shape())
 		switch op.Op {
 		case "get", "has", "walk", "getall":
 			if !w.observeQuery(model, op, phase) {
@@ -980,11 +1138,11 @@ func execPath(x *fw.Ctx, c Case) {
 			continue
 		}
 		var (
-			src            string
-			res            *Node
-			st, why        string
-			anchor         loc
-			literalV       *Node
+			src      string
+			res      *Node
+			st, why  string
+			anchor   loc
+			literalV *Node
 		)
 		switch op.Op {
 		case "set", "parse":
@@ -1034,12 +1192,11 @@ func execPath(x *fw.Ctx, c Case) {
 				st, why = stUndefined, "ends-in-descent"
 			}
 		}
-		sigBase := fmt.Sprintf("path op=%s path=%s", op.Op, pathClass(op.Path))
-		sharedMark := ""
-		if shared {
-			// an earlier step stored one container value at several locations
-			sharedMark = " after=multi-location-container-set"
+		sigOp := op.Op
+		if sigOp == "parse" {
+			sigOp = "set" // bag-parse is bag-set of the parsed text
 		}
+		sigBase := fmt.Sprintf("path op=%s path=%s", sigOp, pathClass(op.Path))
 		_, err := w.eval(src)
 		actual := fromAny(b.Any)
 		trace = append(trace, fmt.Sprintf("%s %s val=%v -> model:%s", op.Op, op.PStr, briefOf(op.Val), st))
@@ -1048,7 +1205,7 @@ func execPath(x *fw.Ctx, c Case) {
 		}
 		switch {
 		case err != nil && err.Internal:
-			x.Fail(sigBase+" fail=internal-fault", "%s => %s", describe(), err)
+			x.Fail(fmt.Sprintf("path op=%s fail=internal-fault", sigOp), "%s => %s", describe(), err)
 			return
 		case err != nil:
 			x.Cover("path:" + op.Op + "-error")
@@ -1061,16 +1218,28 @@ func execPath(x *fw.Ctx, c Case) {
 				x.Fail(sigBase+" fail=frame-broken-by-failed-call", "%s failed (%s) and changed a location not under %s: %s", describe(), err, anchor, d)
 				return
 			}
+			if !op.Path.definite() {
+				// a multi-match call that failed half way: which matches were
+				// done first is the library's map iteration order, so the
+				// history ends here to keep the run a function of the seed
+				x.Cover("path:stopped-after-multi-match-failure")
+				return
+			}
 		case st == stOK:
 			if d := diff(res, actual); d != nil {
 				kind := "wrong-document"
 				if fd := frameDiff(model, actual, anchor); fd != nil && op.Op != "remove" && op.Op != "modify" {
 					kind = "frame-broken"
 				}
-				sig := fmt.Sprintf("%s%s fail=%s", sigBase, sharedMark, kind)
-				if op.Op == "modify" {
-					// identity through the Lisp bridge: name the conversion that loses
-					sig += " at=" + d.kinds()
+				sig := fmt.Sprintf("%s fail=%s", sigBase, kind)
+				switch {
+				case shared:
+					// an earlier step stored one container value at several
+					// locations: whatever diverges afterwards is that one defect
+					sig = "path after=multi-location-container-set fail=later-step-diverges"
+				case op.Op == "modify":
+					// identity through the Lisp bridge: name the kind of value that is lost
+					sig = fmt.Sprintf("path op=modify as-bag=%v fail=wrong-document lost=%s", op.AsBag, d.A)
 				}
 				x.Fail(sig, "%s\n gives %s\n model %s\n %s", describe(), short(actual.canon()), short(res.canon()), d)
 				return
@@ -1081,7 +1250,11 @@ func execPath(x *fw.Ctx, c Case) {
 			// normally, so the property's literal reading applies
 			x.Cover("path:undefined-ok:" + why)
 			if d := frameDiff(model, actual, anchor); d != nil {
-				x.Fail(sigBase+sharedMark+" fail=frame-broken why="+coarseWhy(why), "%s changed a location not under %s: %s", describe(), anchor, d)
+				sig := sigBase + " fail=frame-broken why=" + coarseWhy(why)
+				if shared {
+					sig = "path after=multi-location-container-set fail=later-step-diverges"
+				}
+				x.Fail(sig, "%s changed a location not under %s: %s", describe(), anchor, d)
 				return
 			}
 			if literalV != nil {
@@ -1106,6 +1279,14 @@ func execPath(x *fw.Ctx, c Case) {
 		}
 		model = actual
 		if !w.observeAll(model, b, phase) {
+			return
+		}
+		if st != stOK && !op.Path.definite() {
+			// a multi-match call outside what the notation defines (e.g. members
+			// created while the library walks the maps it is adding to): the
+			// resulting document can depend on map iteration order, so the
+			// history ends here to keep the run a function of the seed
+			x.Cover("path:stopped-after-undefined-multi-match")
 			return
 		}
 	}
